@@ -319,6 +319,40 @@ func c13LibPass(c *mon.Ctx, when string, added ...string) {
 // each kind are registered through the public API; everything listed afterwards must still be selectable.
 func c13Solo(c *mon.Ctx) {
 	c13LibPass(c, "before any addition")
+	// the profile mechanism (no profile ships with the tree today, so one is registered through the public API):
+	// a registered profile is listed, retrievable, and selects exactly the lints it names - also when it is
+	// added to options twice or next to other include names
+	names := lint.GlobalRegistry().Names()
+	pl := []string{names[3], names[len(names)/2], names[len(names)-2]}
+	lint.RegisterProfile(lint.Profile{Name: "verif_profile", Description: "verif", Citation: "verif", Source: "verif", LintNames: pl})
+	if p, ok := lint.GetProfile("verif_profile"); !ok || len(p.LintNames) != 3 {
+		c.V("profile-not-retrievable", "a registered profile cannot be retrieved by name", "", nil, nil)
+	} else {
+		found := false
+		for _, ap := range lint.AllProfiles() {
+			found = found || ap.Name == "verif_profile"
+		}
+		if !found {
+			c.V("profile-not-listed", "a registered profile is missing from AllProfiles()", "", nil, nil)
+		}
+		for k, pre := range [][]string{nil, {}, {names[7]}} {
+			o := lint.FilterOptions{IncludeNames: pre}
+			o.AddProfile(p)
+			if k == 1 {
+				o.AddProfile(p)
+			}
+			r, err := lint.GlobalRegistry().Filter(o)
+			want := 3 + len(pre)
+			if err != nil || len(r.Names()) != want {
+				c.V("profile-selection", fmt.Sprintf("a profile naming 3 lints (added to %d other include names) selects %d lints: %v", len(pre), len(r.Names()), err), "", nil, nil)
+			}
+			c.R.Count("evaluations", 1)
+		}
+		c.R.Distinct("profiles_checked", "verif_profile (registered by the harness)")
+	}
+	if _, ok := lint.GetProfile("no_such_profile"); ok {
+		c.V("unknown-profile-found", "GetProfile answers for a profile that was never registered", "", nil, nil)
+	}
 	mk := func(name string, src lint.LintSource) lint.LintMetadata {
 		return lint.LintMetadata{Name: name, Description: "verif addition", Citation: "verif", Source: src}
 	}
